@@ -270,14 +270,20 @@ def int_const(node):
     return None
 
 
-class _Renamer(ast.NodeTransformer):
-    def __init__(self, mapping):
-        self.mapping = mapping
-
-    def visit_Name(self, node):
-        if node.id in self.mapping:
-            return ast.copy_location(ast.Name(id=self.mapping[node.id], ctx=node.ctx), node)
-        return node
+def _clone(node, mapping):
+    """Structural copy of an AST (only its _fields; the analyser's _parent/_module back links are not followed),
+    with the Names of *mapping* renamed."""
+    if isinstance(node, ast.AST):
+        if isinstance(node, ast.Name) and node.id in mapping:
+            return ast.Name(id=mapping[node.id], ctx=node.ctx)
+        if isinstance(node, ast.ExceptHandler) and node.name in mapping:
+            kw = {f: _clone(getattr(node, f, None), mapping) for f in node._fields}
+            kw["name"] = mapping[node.name]
+            return ast.ExceptHandler(**kw)
+        return type(node)(**{f: _clone(getattr(node, f, None), mapping) for f in node._fields})
+    if isinstance(node, list):
+        return [_clone(x, mapping) for x in node]
+    return node
 
 
 def src_with(node, mapping):
@@ -287,8 +293,7 @@ def src_with(node, mapping):
         return None
     if not mapping:
         return src(node)
-    import copy as _copy
-    return src(_Renamer(mapping).visit(_copy.deepcopy(node)))
+    return src(_clone(node, mapping))
 
 
 def single_def(fn, name):
